@@ -15,6 +15,7 @@ func Tick(site int32)                                              {}
 func Yield(site int32)                                             {}
 func W(p unsafe.Pointer, size uintptr, site int32)                 {}
 func R(p unsafe.Pointer, size uintptr, site int32)                 {}
+func Wd(p unsafe.Pointer, size uintptr, site int32) struct{}       { return struct{}{} }
 func RP(p unsafe.Pointer, size uintptr, site int32) unsafe.Pointer { return p }
 func WM(m interface{}, site int32)                                 {}
 func RM(m interface{}, site int32) interface{}                     { return m }
